@@ -348,7 +348,7 @@ def run_prog(prog, **kw):
         return None, e
 
 
-def probe_state():
+def probe_state(deep=True):
     """behavioural view of the registries (a Model.key()-shaped tuple)"""
     functions, parsing, tools, _, _ = env.mods()
     out = []
@@ -428,12 +428,16 @@ def probe_state():
     for alias in sorted(ALIASES):
         seen = set()
         for spelling in (alias, alias.lower()):
-            try:
-                b = parsing.compile_script(spelling)
-                seen.add(isa.NAMES[b[0]] if len(b) == 1
-                         and b[0] < len(isa.NAMES) else 'OTHER')
-            except BaseException:
-                seen.add(None)
+            # at top level and inside the body of every block construct: an
+            # active alias is an alias wherever an instruction can stand
+            for tmpl, at, size in (ALIAS_CONTEXTS if deep
+                                   else ALIAS_CONTEXTS[:2]):
+                try:
+                    b = parsing.compile_script(tmpl.format(spelling))
+                    seen.add(isa.NAMES[b[at]] if len(b) == size
+                             and b[at] < len(isa.NAMES) else 'OTHER')
+                except BaseException:
+                    seen.add(None)
         if seen == {None}:
             continue
         al.append((alias, seen.pop() if len(seen) == 1 else 'INCONSISTENT'))
@@ -445,6 +449,16 @@ def probe_state():
     out.append(tuple(al))
     out.append(tuple(sorted(set(fired2))))
     return tuple(out), dup
+
+
+# (source template, index of the instruction byte, total length)
+ALIAS_CONTEXTS = [
+    ('{}', 0, 1), ('def 0 {{ {} }}', 4, 5), ('def 0 {} end_def', 4, 5),
+    ('true if {{ {} }}', 4, 5), ('true if {{ true }} else {{ {} }}', 7, 8),
+    ('true loop {{ {} }}', 4, 5), ('try {{ {} }} except {{ }}', 3, 6),
+    ('try {{ }} except {{ {} }}', 5, 6), ('if ( {} ) {{ }}', 0, 4),
+    ('push ~ {{ {} }}', 1, 2),
+]
 
 
 BATTERY_SRC = [
@@ -728,7 +742,9 @@ def run_history(hist, ctx=None, collect=None):
         if p:
             problems.append(('caller-dict-modified', f'step {step} {a}: {p}'))
             break
-        got, dup = probe_state()
+        # every block context after an alias action and on every third
+        # step; top level and one definition body otherwise
+        got, dup = probe_state(a[0].startswith('alias') or step % 3 == 0)
         want = m.key()
         if a[0] in ('prem', 'preset', 'crem', 'irem'):
             after_removal = True
